@@ -59,7 +59,9 @@ def pools(cls, seed=0, md5_salt_len=4):
 
 
 LEADING = ["", " ", "    ", "\t", '"', "'", "{", ":", 'something " ', "something ' ", "something { ",
-           "something : ", '      "', "\t{ ", "  ['", '   \\"']
+           "something : ", '      "', "\t{ ", "  ['", '   \\"',
+           # comment leaders are allowed leading context like any other non-word character
+           "! ", "!", "# ", "#", " ! "]
 TRAILING = ["", '"', "'", "}", '" something', "' something", "} something", ";", " something", " level 2 hash"]
 QUOTING = [("", ""), ('"', '"'), ("'", "'"), ('\\"', '\\"'), ("[", "]"), ("{", "}")]
 
